@@ -34,20 +34,23 @@ use crate::util::spsc::{self};
 
 static NEXT_COLLECT_ID: AtomicUsize = AtomicUsize::new(0);
 static GLOBAL_COLLECTOR: Mutex<Option<GlobalCollector>> = Mutex::new(None);
-static SPSC_RXS: Mutex<Vec<Receiver<CollectCommand>>> = Mutex::new(Vec::new());
+static SPSC_RXS: Mutex<Vec<Receiver<(usize, CollectCommand)>>> = Mutex::new(Vec::new());
+// Number of collector cycles begun so far. Every command is stamped with the value its sender saw,
+// and a cycle takes no command stamped after it began.
+static DRAIN_EPOCH: AtomicUsize = AtomicUsize::new(0);
 static REPORTER_READY: AtomicBool = AtomicBool::new(false);
 
 pub const NOT_SAMPLED_COLLECT_ID: usize = usize::MAX;
 
 thread_local! {
-    static COMMAND_SENDER: UnsafeCell<Sender<CollectCommand>> = {
+    static COMMAND_SENDER: UnsafeCell<Sender<(usize, CollectCommand)>> = {
         let (tx, rx) = spsc::bounded(10240);
         register_receiver(rx);
         UnsafeCell::new(tx)
     };
 }
 
-fn register_receiver(rx: Receiver<CollectCommand>) {
+fn register_receiver(rx: Receiver<(usize, CollectCommand)>) {
     #[cfg(fastrace_verif)]
     crate::verif::point(crate::verif::Point::RegisterReceiver);
     SPSC_RXS.lock().push(rx);
@@ -56,16 +59,18 @@ fn register_receiver(rx: Receiver<CollectCommand>) {
 fn send_command(cmd: CollectCommand) {
     #[cfg(fastrace_verif)]
     verif_log_command(&cmd, false);
+    let epoch = DRAIN_EPOCH.load(Ordering::Relaxed);
     COMMAND_SENDER
-        .try_with(|sender| unsafe { (*sender.get()).send(cmd).ok() })
+        .try_with(|sender| unsafe { (*sender.get()).send((epoch, cmd)).ok() })
         .ok();
 }
 
 fn force_send_command(cmd: CollectCommand) {
     #[cfg(fastrace_verif)]
     verif_log_command(&cmd, true);
+    let epoch = DRAIN_EPOCH.load(Ordering::Relaxed);
     COMMAND_SENDER
-        .try_with(|sender| unsafe { (*sender.get()).force_send(cmd) })
+        .try_with(|sender| unsafe { (*sender.get()).force_send((epoch, cmd)) })
         .ok();
 }
 
@@ -273,6 +278,11 @@ impl GlobalCollector {
         // pick up a command without the one that caused it on another thread (a commit without the
         // span submitted before it, a span without its trace's start, ...). Repeat until a pass finds
         // nothing new: what has been drained is then closed under happens-before.
+        //
+        // Only commands stamped before this cycle began are taken (whatever causes such a command
+        // carries such a stamp too), so threads that keep sending cannot keep the cycle going: once
+        // they have seen the new epoch, what they send waits for the next cycle.
+        let epoch = DRAIN_EPOCH.fetch_add(1, Ordering::Relaxed);
         loop {
             let drained = start_collects.len()
                 + drop_collects.len()
@@ -291,7 +301,10 @@ impl GlobalCollector {
                         verif_index += 1;
                     }
                     loop {
-                        match rx.try_recv() {
+                        match rx
+                            .try_recv_if(|(stamp, _)| *stamp <= epoch)
+                            .map(|received| received.map(|(_, cmd)| cmd))
+                        {
                             #[cfg(fastrace_verif)]
                             Ok(Some(ref cmd)) if verif_log_drained(cmd) => unreachable!(),
                             #[cfg(fastrace_verif)]
@@ -309,7 +322,7 @@ impl GlobalCollector {
                             Ok(Some(CollectCommand::CommitCollect(cmd))) => commit_collects.push(cmd),
                             Ok(Some(CollectCommand::SubmitSpans(cmd))) => submit_spans.push(cmd),
                             Ok(None) => {
-                                // Channel is empty.
+                                // Channel is empty, or what is left was sent after this cycle began.
                                 return true;
                             }
                             Err(_) => {
